@@ -493,6 +493,122 @@ def r09k(F):
 	out.append(Result('09.k', okb, ('ok:' if okb else 'shape:') + 'renumber-all-held', 'the `update_id += 1` renumbering applies to every element of blocked_monitor_updates (loop over iter_mut()): %s' % [expr_str(b)[:90] for _, b in bumps], len(bumps), where=F.where(fn)))
 	return out
 
+def _bool_phis(fu):
+	"""boolean locals assigned constant true on some blocks and constant false on others and then switched on:
+	[(local, true_blocks, false_blocks, [(switch_block, false_target, true_target)])]"""
+	out = []
+	for l, defs in fu.defs.items():
+		tb, fb, other = set(), set(), 0
+		for bi, si, pl, rv in defs:
+			if len(pl) != 1:
+				other += 1
+			elif rv[0] == 'use' and rv[1][0] == 'k' and rv[1][1].get('ty') == 'bool':
+				(tb if rv[1][1].get('v') else fb).add(bi)
+			else:
+				other += 1
+		if tb and fb and not other:
+			sw = []
+			for bi, b in enumerate(fu.blocks):
+				t = b['t']
+				if t[1] != 'switch' or t[2][0] not in ('c', 'm') or len(t[2][1]) != 1:
+					continue
+				sl = t[2][1][0]
+				sd = fu.defs.get(sl, [])
+				if sl != l and len(sd) == 1 and sd[0][3][0] == 'use' and sd[0][3][1][0] in ('c', 'm') and sd[0][3][1][1] == [l]:
+					sl = l
+				if sl == l:
+					f_t = [x for v, x in t[3] if v == 0]
+					sw.append((bi, f_t[0] if f_t else None, t[4]))
+			if sw:
+				out.append((l, tb, fb, sw))
+	return out
+
+def r09l(F):
+	"""what is withheld because a monitor update is in flight is remembered, and released only when ALL in-flight updates completed"""
+	out = []
+	# (i) check_get_channel_ready: once the channel state has moved to "our channel_ready is due", every way out of the function goes through the
+	#     monitor-update-in-progress decision, whose true edge records monitor_pending_channel_ready before returning
+	fn = FC + 'check_get_channel_ready'
+	fu = F.func(fn)
+	mon = sites_call(fu, [CH + 'ChannelState::is_monitor_update_in_progress'])
+	trans = set(sites_call(fu, [CH + 'ChannelState::set_our_channel_ready'])) | {b for b, s in sites_field_write(fu, 'channel_state')}
+	trans &= fu.reach([0])
+	exits = [bi for bi, b in enumerate(fu.blocks) if b['t'][1] == 'ret']
+	if len(mon) != 1 or not trans or not exits:
+		out.append(Result('09.l', False, 'anchor:channel-ready-hold', 'check_get_channel_ready: expected one is_monitor_update_in_progress() decision and the state transition (found %d / %d)' % (len(mon), len(trans)), where=F.where(fn)))
+	else:
+		# the transition arms set a boolean (`need_commitment_update = true`); the switch on it cannot take its false edge after them
+		infeasible = set()
+		for l, tb, fb, sw in _bool_phis(fu):
+			# correlate only when every transition block flows into a true-assignment and into no false-assignment without passing a true one
+			if all((x in tb or any(t in fu.reach([x]) for t in tb)) and not any(f in fu.reach([x], removed_blocks=tb - {x}) - {x} for f in fb) for x in trans):
+				for sb, ft, tt in sw:
+					if ft is not None:
+						infeasible.add((sb, ft))
+		ds = call_decisions(fu, mon, 'bool')
+		dblocks = {d.b for d in ds}
+		esc = fu.path(sorted(trans), exits, removed_edges=infeasible, removed_blocks=dblocks) if dblocks else [0]
+		ok = esc is None
+		out.append(Result('09.l', ok, ('ok:' if ok else 'forgotten:') + 'channel-ready-hold-decided', 'check_get_channel_ready: after the state moves to "channel_ready due", every exit is behind the monitor-update-in-progress decision%s' % ('' if ok else ' - escaping path through lines %s: a channel_ready withheld for another reason while an update is in flight is never recorded as pending and is not released when the update completes' % fu.path_lines(esc)[:8]), len(trans) + len(exits), where=F.where(fn, fu.line_of(mon[0]))))
+		w = {b for b, s in sites_field_write(fu, 'monitor_pending_channel_ready')}
+		for d in ds:
+			out += P5_must_pass(F, '09.l', fu, [e[1] for e in d.true_edges], exits, w, 'monitor_pending_channel_ready recorded on the in-progress arm', key='channel-ready-hold-recorded')
+	# (ii) the (this update completed, all in-flight updates completed) pair: completion actions / channel resumption are released on the second
+	#      component only, and that component is `completed && in_flight.is_empty()`
+	fn = CM + 'handle_new_monitor_update_locked_actions_handled_by_caller'
+	fu = F.func(fn)
+	n_ret = 0
+	bad = []
+	for bi, si, pl, rv in fu.defs.get(0, []):
+		if len(pl) != 1 or bi not in fu.reach([0]):
+			continue
+		if not (rv[0] == 'agg' and rv[1] == 'tuple' and len(rv[4]) == 2):
+			bad.append('return value at line %s is not a pair' % fu.line_of(bi))
+			continue
+		n_ret += 1
+		op = rv[4][1]
+		if op[0] == 'k':
+			if op[1].get('v'):
+				bad.append('all-complete is constant true at line %s' % fu.line_of(bi))
+			continue
+		for dbi, dsi, dpl, drv in fu.defs.get(op[1][0], []):
+			if drv[0] == 'use' and drv[1][0] == 'k' and not drv[1][1].get('v'):
+				continue
+			if drv[0] == 'call' and norm(drv[1].get('f') or drv[1].get('t') or '').endswith('Vec::is_empty'):
+				conds = [k for sb, k, ln in control_conds(fu, dbi)]
+				if not any('handle_monitor_update_res' in k for k in conds):
+					bad.append('is_empty() at line %s is not conditional on the update having completed' % fu.line_of(dbi))
+				continue
+			bad.append('all-complete assigned from something other than false / in_flight.is_empty() at line %s' % fu.line_of(dbi))
+	ok = not bad and n_ret >= 2
+	out.append(Result('09.l', ok, ('ok:' if ok else 'early:') + 'all-complete-definition', 'the second component returned by handle_new_monitor_update_locked_actions_handled_by_caller is false or (this update completed && no update left in flight)%s' % ('' if ok else ': %s' % bad), n_ret, where=F.where(fn)))
+	short = 'handle_new_monitor_update_locked_actions_handled_by_caller'
+	RELEASE = ('ChannelManager::try_resume_channel_post_monitor_update', 'ChannelManager::handle_monitor_update_completion_actions', 'FundedChannel::monitor_updating_restored', 'BTreeMap::remove', 'ChannelManager::handle_post_monitor_update_chan_resume')
+	F.calls
+	callers = sorted({rec[0] for rec in F.callers_of.get(F.fn(fn), [])})
+	n_rel = 0
+	for cn in callers:
+		cu = F.func(cn)
+		cs = sites_call(cu, [fn])
+		after = cu.reach(cs) - set(cs)
+		for b, ci in cu.calls():
+			f = norm(ci.get('f') or ci.get('t') or '')
+			if b in after and any(f.endswith(r) for r in RELEASE):
+				conds = [(k, ln) for sb, k, ln in control_conds(cu, b) if short in k]
+				if not conds and not any(b in cu.reach([x]) for x in cs):
+					continue
+				# a release that is not conditional on the call's result at all is not this rule's business (e.g. unrelated map removals)
+				if not conds:
+					continue
+				n_rel += 1
+				on0 = [k for k, ln in conds if k.rstrip(')').endswith('.0') or k.endswith(').0')]
+				on1 = [k for k, ln in conds if k.endswith(').1')]
+				ok = bool(on1)
+				out.append(Result('09.l', ok, ('ok:' if ok else 'early:') + 'release-on-all-complete@%s:%s' % (cn.rsplit('::', 1)[-1], f.rsplit('::', 1)[-1]), '%s: %s after a new monitor update is conditional on ALL in-flight updates being complete (second component)%s' % (cn.rsplit('::', 1)[-1], f.rsplit('::', 1)[-1], '' if ok else ' - it is conditional on the first component (this update completed) only: during start-up replay an earlier update can complete while a later one is still in flight, and the later one\'s completion actions would run'), 1, where=F.where(cn, cu.line_of(b))))
+	if n_rel < 2:
+		out.append(Result('09.l', False, 'floor:release-sites', 'only %d release sites conditional on the result of %s (expected >= 2)' % (n_rel, short), n_rel, where=F.where(fn)))
+	return out
+
 RULES = [
 	('09.a', 'monitor update ids advance by +1 at frozen sites; blocked updates form a FIFO', r09a),
 	('09.b', 'every ChannelMonitorUpdate is built with the channel\'s current update id', r09b),
@@ -504,5 +620,6 @@ RULES = [
 	('09.h', 'ChainMonitor: Completed event only when nothing is pending; update applied before persisting; InProgress recorded', r09h),
 	('09.i', 'completion actions run only from the frozen completion sites', r09i),
 	('09.k', 'every new update of a live channel queues behind held updates; held updates are renumbered together', r09k),
+	('09.l', 'a withheld channel_ready is recorded as pending; completion actions are released only when all in-flight updates completed', r09l),
 	('09.j', 'held state accumulates across pauses; renumbering uses the first blocked id; an InProgress initial persist is tracked', r09j),
 ]
